@@ -329,12 +329,74 @@ def run(tier, seed, build):
         else:
             res.count("verdict:" + v.split(":")[0])
             res.violations.append({"signature": v, "case": case, "impl": im, "spec": spec})
+    end_to_end(res, rng, 120 if tier == "quick" else 1500)
     res.assumptions = [
-        "inspect.Signature.bind is Python's binding rule",
+        "a real call of a real function with that signature is Python's binding rule",
         "[interp] a call Python rejects only for a missing required argument need not be diagnosed (rattr's CallInterface has no defaults)",
         "[interp] *args/**kwargs parameters are expected to be mapped to their stand-ins whenever the parameter exists",
     ]
     return res
+
+
+def end_to_end(res, rng, n):
+    """The same property through the whole pipeline: a generated callee reads `<param>.mark_<param>` for
+    every parameter; a caller makes TWO accepted calls to it (same callee, often the same positionals and
+    keyword names but different values); after result generation the caller must report
+    `<argument>.mark_<param>` for every explicitly bound parameter of BOTH calls."""
+    from props import resultslib as rl
+
+    done = 0
+    while done < n:
+        sig, call1 = random_case(rng)
+        if python_bind(sig, call1)[0] != "ok":
+            continue
+        names = [p["name"] for k in ("posonly", "args", "kwonly") for p in sig[k]]
+        # second call: same shape, different argument identifiers
+        call2 = {"args": [f"y{i}" for i in range(len(call1["args"]))], "kwargs": [[k, f"w_{k}"] for k, _ in call1["kwargs"]]}
+        call1 = {"args": [f"x{i}" for i in range(len(call1["args"]))], "kwargs": [[k, f"v_{k}"] for k, _ in call1["kwargs"]]}
+        if rng.random() < 0.5:
+            call2["args"] = list(call1["args"])       # identical positionals, only keyword VALUES differ
+        skip = False
+        for c in (call1, call2):
+            kw_keys = [k for k, _ in c["kwargs"]]
+            clash = [p["name"] for p in sig["posonly"]] + [x for x in (sig["vararg"], sig["kwarg"]) if x]
+            if (sig["kwarg"] and any(k in clash for k in kw_keys)) or len(c["args"]) < len(sig["posonly"]):
+                skip = True         # known finding classes E1 / E2: judged by the direct check above
+        if skip:
+            continue
+        done += 1
+        res.evaluations += 1
+        idents = sorted({a for c in (call1, call2) for a in c["args"]} | {v for c in (call1, call2) for _, v in c["kwargs"]})
+        body = "\n".join(f"    {n}.mark_{n}" for n in names) or "    pass"
+        hdr = py_source(sig).replace(": pass", ":")
+
+        def spell(c):
+            return ", ".join(list(c["args"]) + [f"{k}={v}" for k, v in c["kwargs"]])
+
+        src = f"{hdr}\n{body}\n\ndef caller({', '.join(idents) or ''}):\n    callee({spell(call1)})\n    callee({spell(call2)})\n"
+        out = impl.outcome_of(rl.analyse_source, src)
+        if out[0] != "ok":
+            res.internal_errors.append({"what": "end-to-end program failed to analyse", "source": src})
+            continue
+        im = rl.run_impl(out[1])
+        if im["outcome"] != "ok":
+            res.violations.append({"signature": "end-to-end:result-generation-crash", "case": {"source": src}})
+            continue
+        snap = rl.snapshot(out[1])
+        caller_key = next(k for k, f in enumerate(snap["fns"]) if f["name"] == "caller")
+        gets = set(im["rounds"][0]["results"][caller_key]["gets"])
+        missing = []
+        for c in (call1, call2):
+            pb = python_bind(sig, c)
+            for param, arg in pb[1]:
+                if f"{arg}.mark_{param}" not in gets:
+                    missing.append(f"{arg}.mark_{param}")
+        if missing:
+            res.count("verdict:end-to-end:explicit-argument-not-bound")
+            res.violations.append({"signature": "end-to-end:explicit-argument-not-bound-in-caller-results",
+                                   "case": {"source": src}, "missing": missing, "caller_gets": sorted(gets)})
+        else:
+            res.count("end-to-end:holds")
 
 
 def replay(path):
